@@ -508,6 +508,13 @@ func (e *Engine) resolveRoles() {
 			break
 		}
 	}
+	anchorFuncs = map[*ssa.Function]bool{}
+	scopeCache = map[*ssa.Function][]*ssa.Function{}
+	for _, r := range roles {
+		if f := e.Func(r.Alias, r.Name); f != nil {
+			anchorFuncs[f] = true
+		}
+	}
 }
 
 func (e *Engine) resolveRole(r roleFP, taken map[*ssa.Function]bool) bool {
